@@ -6,6 +6,7 @@ use simple_sds::bit_vector::select_support::SelectSupport;
 use simple_sds::bit_vector::{BitVector, Complement, Identity};
 use simple_sds::ops::*;
 use simple_sds::raw_vector::{PushRaw, RawVector};
+use std::convert::TryFrom;
 use std::fmt::Write;
 
 const DBG: bool = cfg!(debug_assertions);
@@ -39,8 +40,22 @@ fn build_routes(bits: &[bool], sup: u64) -> (BitVector, bool) {
     let mut a = BitVector::from(raw);
     // route 2: bool iterator
     let mut b: BitVector = bits.iter().cloned().collect();
-    // route 3: conversion
-    let mut c = BitVector::copy_bit_vec(&a);
+    // route 3: conversion - directly, or through a sparse vector, a multiset with every position twice, or a
+    // run-length vector (whatever the source caches, the result must describe its own bits)
+    let mut c = match bits.len() % 4 {
+        0 => BitVector::copy_bit_vec(&a),
+        1 => BitVector::from(simple_sds::sparse_vector::SparseVector::copy_bit_vec(&a)),
+        2 => {
+            let pos: Vec<usize> = (0..bits.len()).filter(|i| bits[*i]).collect();
+            let mut sb = simple_sds::sparse_vector::SparseBuilder::multiset(bits.len(), 2 * pos.len());
+            for p in pos.iter() {
+                sb.set(*p);
+                sb.set(*p);
+            }
+            BitVector::copy_bit_vec(&simple_sds::sparse_vector::SparseVector::try_from(sb).unwrap())
+        }
+        _ => BitVector::from(simple_sds::rl_vector::RLVector::copy_bit_vec(&a)),
+    };
     let mut same = a == b && a == c && serialize_elems(&a) == serialize_elems(&b) && serialize_elems(&a) == serialize_elems(&c);
     // the supports are enabled in a different order on each route (rank, select, select_zero / the reverse / a
     // rotation that depends on the length); the results must be equal whatever the order
